@@ -540,7 +540,7 @@ impl FixtureDatabase {
         }
 
         // Check if this is a test function
-        let is_test = func_name.starts_with("test_");
+        let is_test = func_name.starts_with("test");
 
         if is_test {
             debug!("Found test function: {}", func_name);
